@@ -194,14 +194,18 @@ impl ValidatorSync for KeepSortedValidator {
                                         )
                                     })?;
                                 if cmp == violating_ord {
-                                    let violation_line_number = block_with_context
-                                        .block
-                                        .start_tag_position_range
-                                        .start()
-                                        .line
-                                        + line_number;
-                                    let line_character_start = *curr_range.start();
-                                    let line_character_end = *curr_range.end();
+                                    // The content starts where the start tag's comment ends:
+                                    // its first line may be the rest of that comment's last line.
+                                    let content_start =
+                                        &block_with_context.block.content_position_range.start;
+                                    let violation_line_number = content_start.line + line_number;
+                                    let column_offset = if line_number == 0 {
+                                        content_start.character - 1
+                                    } else {
+                                        0
+                                    };
+                                    let line_character_start = *curr_range.start() + column_offset;
+                                    let line_character_end = *curr_range.end() + column_offset;
                                     violations
                                         .entry(file_path.clone())
                                         .or_insert_with(Vec::new)
